@@ -203,7 +203,7 @@ class Model:
                 str(state_id): result
                 for state_id, result in zip(
                     self.arglist_state,
-                    self._impl.execute(dt, *state, *self.calibration_vector, *control),
+                    self._impl.execute(dt, *state, *self.calibration_vector.flat, *control),
                 )
             }
         )
@@ -261,7 +261,7 @@ class SensorModel:
         for i, (reading_id, result) in enumerate(
             zip(
                 self.readings,
-                self._impl.execute(*state_vector, *self.calibration_vector),
+                self._impl.execute(*state_vector, *self.calibration_vector.flat),
             )
         ):
             try:
@@ -506,7 +506,7 @@ class ExtendedKalmanFilter:
     def process_jacobian(self, dt, state, control):
         computed_jacobian = list(
             self._impl_process_jacobian.execute(
-                dt, *state, *self.calibration_vector, *control
+                dt, *state, *self.calibration_vector.flat, *control
             )
         )
 
@@ -520,7 +520,7 @@ class ExtendedKalmanFilter:
     def control_jacobian(self, dt, state, control):
         computed_jacobian = list(
             self._impl_control_jacobian.execute(
-                dt, *state, *self.calibration_vector, *control
+                dt, *state, *self.calibration_vector.flat, *control
             )
         )
         result = np.zeros((self.state_size, self.control_size))
@@ -535,7 +535,7 @@ class ExtendedKalmanFilter:
         impl_sensor_jacobian = self._impl_sensor_jacobians[sensor_key]
 
         computed_jacobian = list(
-            impl_sensor_jacobian.execute(*state, *self.calibration_vector)
+            impl_sensor_jacobian.execute(*state, *self.calibration_vector.flat)
         )
         result = np.zeros((sensor_size, self.state_size))
         for row in range(sensor_size):
